@@ -13,7 +13,10 @@ import (
 // packages, moved classes that import other moved classes, nested types / enums / interfaces / annotation
 // types, 1..3 moves, CRLF files, files without final newline, non-ASCII text, decorated import lines (rarely),
 // Analysis twice, two projects in one process.
-type g struct{ r *rand.Rand }
+type g struct {
+	r   *rand.Rand
+	cli bool // the command also removes unused imports: only imports of project classes that the body uses
+}
 
 func (x *g) pick(xs []string) string { return xs[x.r.Intn(len(xs))] }
 func (x *g) chance(n int) bool       { return x.r.Intn(n) == 0 }
@@ -165,8 +168,15 @@ func (x *g) project() Project {
 		if x.chance(4) {
 			ni = x.r.Intn(7)
 		}
+		if x.cli && (c.kind == "enum" || c.kind == "interface" || c.kind == "annotation") {
+			ni = 0 // such a body uses no imported type, and the command would remove the import
+		}
 		for k := 0; k < ni; k++ {
-			switch y := x.r.Intn(10); {
+			y := x.r.Intn(10)
+			if x.cli {
+				y = 0
+			}
+			switch {
 			case y < 6:
 				o := classes[x.r.Intn(len(classes))]
 				if o.q() == c.q() || simple[o.name] || o.pkg == c.pkg && x.chance(2) {
@@ -183,6 +193,9 @@ func (x *g) project() Project {
 				imps = append(imps, l)
 				if o.kind != "annotation" {
 					used = append(used, o)
+				} else if x.cli {
+					imps = imps[:len(imps)-1]
+					delete(simple, o.name)
 				}
 			case y < 7:
 				imps = append(imps, Line{K: "import", Name: x.pick([]string{"java.util.List", "java.util.Map", "java.io.File"})})
@@ -230,14 +243,21 @@ func (x *g) project() Project {
 }
 
 func gen(seed int64, n int, tier string) []interface{} {
-	x := &g{rand.New(rand.NewSource(seed*15485863 + 11))}
+	x := &g{r: rand.New(rand.NewSource(seed*15485863 + 11))}
 	out := []interface{}{}
 	for i := 0; i < n; i++ {
+		via := "api"
+		x.cli = x.chance(15)
+		if x.cli {
+			via = "cli"
+		}
 		ps := []Project{x.project()}
-		if x.chance(5) {
+		if x.cli {
+			ps[0].Analyses = 1
+		} else if x.chance(5) {
 			ps = append(ps, x.project())
 		}
-		out = append(out, Case{Case: fmt.Sprintf("rand-%d-%d", seed, i), Input: Input{Projects: ps}})
+		out = append(out, Case{Case: fmt.Sprintf("rand-%d-%d", seed, i), Input: Input{Via: via, Projects: ps}})
 	}
 	return out
 }
